@@ -18,7 +18,7 @@ RULE = ('quick: every outline AST with <=4 nodes and nesting <=2 over {step, if/
         'scripts to length 12; non-trivial when at least one predicate or >=2 calls were made')
 RULE += ('; also: steps that register awaitables, a description of the outline asked for first, decorated step functions, chains with a required output nobody emits')
 ASSUMPTIONS = ['predicates return real booleans', 'ToContext returns are C10\'s business', 'interpreter written from the property statement']
-REQUIRED = ['runs', 'ended/return', 'ended/value', 'ended/end', 'nodes/if', 'nodes/while', 'nodes/ret', 'calls_compared', 'falsy_stop_values', 'steps_registering_awaitables', 'value_with_awaitable', 'described_first', 'required_output_missing', 'decorated_steps_called', 'non_bool_predicates']
+REQUIRED = ['runs', 'ended/return', 'ended/value', 'ended/end', 'nodes/if', 'nodes/while', 'nodes/ret', 'calls_compared', 'falsy_stop_values', 'steps_registering_awaitables', 'value_with_awaitable', 'described_first', 'required_output_missing', 'decorated_steps_called', 'non_bool_predicates', 'outline_names_base_functions', 'empty_context_assignments']
 EXHAUSTIVE = {'quick': True, 'thorough': False}
 BOUNDS = {'quick': 'ASTs <=4 nodes depth<=2, predicate scripts <=4, exhaustive after de-duplication', 'thorough': '+5-node ASTs sampled, 4000 random ASTs depth<=4'}
 STOPVALS = [0, '', False, 7]
@@ -60,6 +60,14 @@ def gen_cases(tier, seed):
                     if np and len(seen) % 3 == 2:
                         # the same run with predicates that answer with a list / string / object instead of a bool
                         yield {'ast': ast, 'preds': p[:np] if np <= len(p) else p, 'rets': r[:ns], 'pred_style': 'containers' if len(seen) % 2 else 'objects'}
+                    if ns and None in r[:ns] and len(seen) % 6 == 4:
+                        # the same run with one of the steps returning an EMPTY context assignment instead of None
+                        r2 = list(r[:ns])
+                        r2[r2.index(None)] = '@TC0'
+                        yield {'ast': ast, 'preds': p[:np] if np <= len(p) else p, 'rets': r2, 'empty_tc': True}
+                    if ns and len(seen) % 5 == 3:
+                        # the same run in a subclass that overrides some of the steps while the outline names the base class's functions
+                        yield {'ast': ast, 'preds': p[:np] if np <= len(p) else p, 'rets': r[:ns], 'shadowed': True}
                     if len(seen) % 4 == 1:
                         # the same run in a chain that declares a required output nobody emits: unsuccessful, same result
                         yield {'ast': ast, 'preds': p[:np] if np <= len(p) else p, 'rets': r[:ns], 'must': True}
@@ -85,7 +93,9 @@ def run_case(case):
     obs = {'runs': 1, 'ended': {how: 1}, 'nodes': {}, 'calls_compared': 0, 'falsy_stop_values': 0, 'described_first': 0}
     if how == 'budget':
         return {'viol': [], 'obs': obs, 'inconclusive': 'interpreter-budget', 'key': case, 'nontrivial': False}
-    cls = outlines.outline_class(ast, must=bool(case.get('must')))
+    cls = outlines.outline_class(ast, must=bool(case.get('must')), shadowed=bool(case.get('shadowed')))
+    obs['outline_names_base_functions'] = int(bool(case.get('shadowed')))
+    obs['empty_context_assignments'] = int(bool(case.get('empty_tc')))
     obs['required_output_missing'] = int(bool(case.get('must')))
     obs['non_bool_predicates'] = int(bool(case.get('pred_style')))
     obs['decorated_steps_called'] = sum(1 for t in exp_trace if t in outlines.DECORATED)
@@ -125,6 +135,8 @@ def run_case(case):
                       'calls %s, expected %s (outline %s, preds %s, rets %s)' % (got_trace, exp_trace, shape, preds, rets)))
     elif state != 'finished':
         viol.append(V('not-finished', 'not-finished:%s' % state, 'workchain ended %s %s (outline %s)' % (state, exc, shape)))
+    elif case.get('empty_tc') and how == 'end' and (result is None or (isinstance(result, dict) and not result)):
+        pass  # (the chain ran to its end; whether an empty context assignment returned by the very last step counts as "the value" is left open)
     elif _jsonable(result) != _jsonable(exp_result) or type(result) is not type(exp_result):
         viol.append(V('result', 'result:%s:%s' % (how, repr(exp_result)), 'result %r, expected %r by %s (outline %s, preds %s, rets %s)' % (
             result, exp_result, how, shape, preds, rets)))
